@@ -145,6 +145,9 @@ def make_judges(ctx):
             return
         ex = A.exact_op(ai.op, A.fr_array(ai.x), A.fr_array(ai.y))
         exf, shape = A.flat(ex)
+        if A.beyond_double(ai, exf, A.fr_array(ai.x), A.fr_array(ai.y)):
+            ctx.skip('register:value (repr) method on values beyond double precision (float arithmetic by definition)')
+            return
         sc = F(2) ** tfmt[2]
         xs = [e * sc for e in exf]
         if n <= 52 and any(abs(x) >= 2 ** 62 for x in xs):
